@@ -11,7 +11,7 @@ from urllib.parse import urlsplit
 FN = "ural.fingerprint_url.fingerprint_url"
 ISO = sorted(ISO_3166_1_COUNTRIES_ALPHA_2)
 SUFFIXES = ["com", "fr", "co.uk", "com.au", "org", "gov.uk", "net", "pvt.k12.ma.us", "co.jp", "de"]
-NOT_CODES = ["zz", "xx", "qq", "ww"]
+NOT_CODES = ["zz", "xx", "qq", "ww", "\u0131t", "\u017fe"]   # the last two become codes through str.upper() only (dotless i, long s)
 
 
 def fp(u, kw):
@@ -30,6 +30,10 @@ def swapcase_component(u, which):
     return out
 
 
+CARRIERS = [("youtube.com", "/redirect?q=lemonde.fr/article"), ("amp-a-com.cdn.ampproject.org", "/v/s/a.com/x?id=1"), ("bc.marfeel.com", "/a.com/x"),
+            ("example.com", "/out?url=http%3A%2F%2Flemonde.fr%2Fa")]
+
+
 def bases():
     out = []
     # incl. hosts that are a bare public suffix, that already start with a country-code-like label, and an escaped upper-case query key
@@ -39,6 +43,8 @@ def bases():
                      # letters whose lower-case form depends on their position (final sigma), accented letters
                      "/\u039f\u0394\u039f\u03a3/\u00c9t\u00e9?q=\u0391\u03a3", "/\u03bf\u03b4\u03bf\u03c3"):
             out.append((host, tail))
+    # redirect carriers: the port of the carrier is ignored like any other (host-based and parameter-based hints)
+    out.extend(CARRIERS)
     return out
 
 
@@ -105,7 +111,9 @@ def shard(job):
                     check_equal(col, "language-subdomain" + tag, u, "http://%s.%s%s" % (lab, host, tail), kw, r0)
                     check_equal(col, "language-subdomain+www" + tag, u, "http://www.%s.%s%s" % (lab, host, tail), kw, r0)
             platform_host = kw.get("platform_aware") and host in ("youtube.com", "facebook.com")
-            for bad in ([] if platform_host else NOT_CODES):
+            # (a redirect carrier vanishes from the fingerprint with all its labels: nothing of it can be "kept")
+            carrier = (host, tail) in CARRIERS
+            for bad in ([] if platform_host or carrier else NOT_CODES):
                 check_differs_host(col, "two-letter-label-that-is-no-country-code", u, "http://%s.%s%s" % (bad, host, tail), kw)
                 check_differs_host(col, "xx-yy-with-non-codes", u, "http://%s-%s.%s%s" % (bad, bad, host, tail), kw)
             # gl / hl items at every position
